@@ -11,6 +11,18 @@
 //!       free-running threads hammer `Timestamp::now` (even threads: real clock, odd threads: a
 //!       clock running backwards); the real-time order is reconstructed from tickets of one
 //!       SeqCst counter taken immediately before and after each call.
+//!   `burst <mode> <threads> <rounds> <seed>`
+//!       hook-placement independent: persistent threads are released together once per round
+//!       (spin barrier) while the cell is BEHIND the clock, each makes one call, truly
+//!       concurrently; thousands of rounds.  Modes: `real` (real clock; the round starts once
+//!       the wall clock has passed the last timestamp), `same` (thread-local clock override:
+//!       every thread of a round gets the SAME reading, ahead of the cell), `cross` (distinct
+//!       readings ahead of the cell, handed out in crossing order), `mixed` (readings behind /
+//!       equal / ahead of the cell, with repeats).  Oracle per round: all values distinct,
+//!       greater than everything returned in earlier rounds, real-time order by tickets; for
+//!       the injected-clock modes additionally the exact sequential specification: sorted by
+//!       value, every value equals max(own reading, predecessor + 1), starting from the cell
+//!       before the round.
 //!   `repub <threads> <calls> <seed> <dups> <tasks>`
 //!       republish ordering end to end (lean/IrohModel/C33/Republish.lean): `threads` threads of this
 //!       process publish `calls` numbered endpoint infos each through the real
@@ -24,6 +36,7 @@
 //!   sched : chronological events `i<t>` (call starts) `l<t>=<v>` (`now` produced v) `r<t>=<v>`
 //!           (returned to the caller) `p<t>` (panicked), then `cell=<final cell>`
 //!   stress: `stress returned=<n> panics=<n>`
+//!   burst : `burst rounds=<n> returned=<n> panics=<n>`
 //!   repub : `repub published=<n> stored=final decoded=final`
 use std::{
     panic::{AssertUnwindSafe, catch_unwind},
@@ -320,6 +333,166 @@ fn run_stress(threads: usize, calls: usize) -> Exec {
     ex
 }
 
+fn spin_until(mut cond: impl FnMut() -> bool) {
+    let mut n = 0u32;
+    while !cond() {
+        n += 1;
+        if n % 256 == 0 {
+            std::thread::yield_now();
+        } else {
+            std::hint::spin_loop();
+        }
+    }
+}
+
+fn real_micros() -> u64 {
+    std::time::SystemTime::now()
+        .duration_since(std::time::UNIX_EPOCH)
+        .expect("clock")
+        .as_micros() as u64
+}
+
+fn run_burst(mode: &str, threads: usize, rounds: usize, seed: u64) -> Exec {
+    use std::sync::Arc;
+    let injected = mode != "real";
+    verif_hooks::set_last_timestamp(if injected { 1_000 } else { 0 });
+    TICKET.store(0, Ordering::SeqCst);
+    let go = Arc::new(AtomicU64::new(0));
+    let done = Arc::new(AtomicU64::new(0));
+    let readings: Arc<Vec<AtomicU64>> = Arc::new((0..threads).map(|_| AtomicU64::new(0)).collect());
+    let handles: Vec<_> = (0..threads)
+        .map(|i| {
+            let (go, done, readings) = (go.clone(), done.clone(), readings.clone());
+            std::thread::spawn(move || {
+                // (reading, ticket before, value or None on panic, ticket after) per round
+                let mut recs: Vec<(u64, u64, Option<u64>, u64)> = Vec::with_capacity(rounds);
+                for r in 1..=rounds as u64 {
+                    spin_until(|| go.load(Ordering::Acquire) >= r);
+                    let c = readings[i].load(Ordering::Relaxed);
+                    if injected {
+                        verif_hooks::set_clock_override(Some(c));
+                    }
+                    // a plain read before the call (an RMW here would stagger the threads and
+                    // close the window in which they all see the same cell), an RMW after it:
+                    // A returned before B started iff A's post-ticket < B's pre-read
+                    let t0 = TICKET.load(Ordering::SeqCst);
+                    let v = catch_unwind(|| Timestamp::now().as_micros()).ok();
+                    let t1 = TICKET.fetch_add(1, Ordering::SeqCst);
+                    recs.push((c, t0, v, t1));
+                    done.fetch_add(1, Ordering::Release);
+                }
+                verif_hooks::set_clock_override(None);
+                recs
+            })
+        })
+        .collect();
+    let mut rng = Rng::new(seed);
+    let mut cell_before: Vec<u64> = Vec::with_capacity(rounds);
+    for r in 1..=rounds as u64 {
+        let cell = verif_hooks::last_timestamp();
+        match mode {
+            "real" => {
+                // let the wall clock pass the last timestamp: the cell is behind the clock
+                spin_until(|| real_micros() > cell + 1);
+            }
+            "same" => {
+                let c = cell + *rng.pick(&[1u64, 1, 2, 3, 50]);
+                for x in readings.iter() {
+                    x.store(c, Ordering::Relaxed);
+                }
+            }
+            "cross" => {
+                let base = cell + rng.range(1, 4);
+                let mut offs: Vec<u64> = (0..threads as u64).collect();
+                rng.shuffle(&mut offs);
+                for (x, o) in readings.iter().zip(offs) {
+                    x.store(base + o * rng.range(1, 3), Ordering::Relaxed);
+                }
+            }
+            _ => {
+                for x in readings.iter() {
+                    x.store((cell + rng.below(threads as u64 + 4)).saturating_sub(2), Ordering::Relaxed);
+                }
+            }
+        }
+        cell_before.push(verif_hooks::last_timestamp());
+        go.store(r, Ordering::Release);
+        spin_until(|| done.load(Ordering::Acquire) >= r * threads as u64);
+    }
+    let per_thread: Vec<Vec<(u64, u64, Option<u64>, u64)>> =
+        handles.into_iter().map(|h| h.join().expect("burst thread")).collect();
+
+    let mut ex = Exec::default();
+    let mut panics = 0u64;
+    let mut returned = 0u64;
+    let mut max_prev: Option<u64> = None;
+    let mut reported = 0;
+    let mut overlapping_rounds = 0u64;
+    for r in 0..rounds {
+        let mut calls: Vec<(u64, u64, u64, u64, usize)> = Vec::with_capacity(threads); // (value, reading, t0, t1, thread)
+        for (i, recs) in per_thread.iter().enumerate() {
+            let (c, t0, v, t1) = recs[r];
+            match v {
+                Some(v) => calls.push((v, c, t0, t1, i)),
+                None => panics += 1,
+            }
+        }
+        returned += calls.len() as u64;
+        calls.sort_unstable();
+        let mut viol = |ex: &mut Exec, class: &str, detail: String| {
+            if reported < 4 {
+                reported += 1;
+                ex.violation(class, format!("round {r} (cell before {}): {detail}", cell_before[r]));
+            }
+        };
+        if calls.iter().any(|a| calls.iter().any(|b| a.4 != b.4 && a.2 <= b.3 && b.2 <= a.3)) {
+            overlapping_rounds += 1;
+        }
+        for w in calls.windows(2) {
+            if w[0].0 == w[1].0 {
+                viol(&mut ex, "duplicate", format!("threads {} and {} both returned {} (readings {} and {})", w[0].4, w[1].4, w[0].0, w[0].1, w[1].1));
+            }
+        }
+        if let (Some(m), Some(first)) = (max_prev, calls.first()) {
+            if first.0 <= m {
+                viol(&mut ex, "not-increasing", format!("thread {} returned {} although {m} was returned in an earlier round", first.4, first.0));
+            }
+        }
+        for a in &calls {
+            for b in &calls {
+                if a.3 < b.2 && a.0 >= b.0 {
+                    viol(&mut ex, "not-increasing", format!("thread {} returned {} before thread {} started, which returned {}", a.4, a.0, b.4, b.0));
+                }
+            }
+        }
+        if injected {
+            // exact sequential specification in value (= CAS) order
+            let mut prev = cell_before[r];
+            for c in &calls {
+                let want = c.1.max(prev + 1);
+                if c.0 != want {
+                    viol(&mut ex, "not-linearizable", format!("thread {} with reading {} returned {} where max(reading, {prev} + 1) = {want} is due; all (value, reading): {:?}", c.4, c.1, c.0, calls.iter().map(|x| (x.0, x.1)).collect::<Vec<_>>()));
+                    break;
+                }
+                prev = c.0;
+            }
+        }
+        if let Some(last) = calls.last() {
+            max_prev = Some(max_prev.map_or(last.0, |m| m.max(last.0)));
+        }
+    }
+    if panics > 0 {
+        ex.violation("unexpected-panic", format!("{panics} calls panicked"));
+    }
+    ex.out = format!("burst rounds={rounds} returned={returned} panics={panics}");
+    ex.tags.push(format!("burst-{mode}"));
+    if overlapping_rounds * 2 > rounds as u64 {
+        ex.tags.push("burst-mostly-overlapping".into());
+    }
+    ex.nontrivial = true;
+    ex
+}
+
 fn numbered_info(sk: &SecretKey, label: &str) -> EndpointInfo {
     let relay: RelayUrl = "https://relay.example.com/?k=v=w".parse().expect("url");
     let mut data = EndpointData::new(vec![
@@ -487,6 +660,11 @@ impl Prop for C33 {
         // free-running stress runs
         out.push("stress 16 50000".into());
         out.push("stress 2 200000".into());
+        // concurrent bursts with the cell behind the clock (independent of hook placement)
+        let rounds = if tier == Tier::Thorough { 50000 } else { 6000 };
+        for (mode, th) in [("same", 2usize), ("same", 4), ("same", 8), ("cross", 4), ("mixed", 4), ("mixed", 3), ("real", 4), ("real", 8)] {
+            out.push(format!("burst {mode} {th} {rounds} {}", rng.u64() % 1_000_000));
+        }
         // republish ordering through the real signer and the real server store
         for (t, k, d, tasks) in [(4usize, 40usize, 1usize, 4usize), (1, 30, 2, 1), (8, 12, 0, 3)] {
             out.push(format!("repub {t} {k} {} {d} {tasks}", rng.u64() % 1_000_000));
@@ -573,6 +751,12 @@ impl Prop for C33 {
                 let clocks: Vec<Vec<u64>> = cl.split('|').map(list).collect();
                 run_sched(cell0, &clocks, &list(sc))
             }
+            ["burst", mode, th, rounds, seed] => run_burst(
+                mode,
+                th.parse().expect("threads"),
+                rounds.parse().expect("rounds"),
+                seed.parse().expect("seed"),
+            ),
             ["repub", th, calls, seed, dups, tasks] => run_repub(
                 th.parse().expect("threads"),
                 calls.parse().expect("calls"),
